@@ -418,6 +418,17 @@ def mk_ring(w, poly):
         return const(0, w)
     if len(poly) == 1 and () in poly:
         return const(poly[()], w)
+    # k + c*b with b a 0/1 word: ite(b, k+c, k) = k ^ (replicate(b) & ((k+c) ^ k)) is affine
+    if len(poly) <= 2 and w > 1:
+        monos = [k_ for k_ in poly if k_ != ()]
+        if len(monos) == 1 and len(monos[0]) == 1 and (len(poly) == 1 or () in poly):
+            at = _ATOM[monos[0][0]]
+            co = poly[monos[0]]
+            if co & (co - 1):  # powers of two are handled (better) by the disjoint-span rule below
+                bit = _bool_word_bit(at)
+                if bit is not None:
+                    k0 = poly.get((), 0)
+                    return xor(const(k0, w), and_const(replicate(bit, w), ((k0 + co) & m) ^ k0))
     # disjoint power-of-two combination of atoms -> affine form
     ok = True
     occupied = poly.get((), 0)
@@ -680,6 +691,14 @@ def _eqz(d):
                 for k in ks:
                     del rows[k]
                 bits.append(_mk("eqz", 1, (a,)))
+        # (x | y) == 0: the word is stored as not(and(not x, not y)); "and-atom == all ones" is both operands all ones
+        for a in atoms:
+            ks = [((a.id, 1 << j),) for j in range(a.w)]
+            if a.w > 1 and a.op == "and" and all(k in rows and rows[k] == 1 for k in ks):
+                for k in ks:
+                    del rows[k]
+                bits.append(eqz(bnot(a.args[0])))
+                bits.append(eqz(bnot(a.args[1])))
         # each remaining distinct row r with const cb: need r ^ cb == 0  <=>  bit term (r ^ cb ^ 1) is 1
         for key in sorted(rows):
             ents = {}
@@ -688,6 +707,22 @@ def _eqz(d):
                 ents[a] = m  # stride w=1: column j occupies bit j
             bits.append(mk_aff(1, rows[key] ^ 1, ents))
         return and1(bits)
+    if d.op == "ring":
+        items = d.aux
+        w = d.w
+        # x - y == 0  <=>  x == y: the bitwise form is the canonical one
+        if len(items) == 2 and all(len(mo) == 1 for mo, _ in items):
+            (m1, c1), (m2, c2) = items
+            if {c1, c2} == {1, mask(w)}:
+                x, y = _ATOM[m1[0]], _ATOM[m2[0]]
+                if x.w >= w and y.w >= w:  # only the low w bits of a wider atom matter mod 2^w
+                    x = trunc(x, w) if x.w > w else x
+                    y = trunc(y, w) if y.w > w else y
+                    return eqz(xor(x, y))
+        # p == 0 and -p == 0 are the same test: keep the representative whose first coefficient is the smaller one
+        first = items[0][1]
+        if first > ((-first) & mask(w)):
+            return _mk("eqz", 1, (mk_ring(w, {mo: (-co) & mask(w) for mo, co in items}),))
     return _mk("eqz", 1, (d,))
 
 
@@ -702,6 +737,8 @@ def eq(a, b):
     assert a.w == b.w, (a, b)
     if a is b:
         return TRUE
+    if a.w > 1 and (a.op == "ring" or b.op == "ring"):
+        return eqz(sub(a, b))  # a difference of arithmetic terms compares as the arithmetic difference
     return eqz(xor(a, b))
 
 
@@ -1278,6 +1315,14 @@ def subst(t, m, memo=None):
             r = shl_var(na[0], na[1])
         elif t.op == "lshrv":
             r = lshr_var(na[0], na[1])
+        elif t.op == "rotlv":
+            r = rotl_var(na[0], na[1])
+        elif t.op == "rotrv":
+            r = rotr_var(na[0], na[1])
+        elif t.op == "sdiv":
+            r = sdiv(na[0], na[1])
+        elif t.op == "srem":
+            r = srem(na[0], na[1])
         else:
             r = _mk(t.op, t.w, na, t.aux)
     memo[t.id] = r
